@@ -38,10 +38,11 @@ CONSTANTS
   Defects,      \* subset of {"syntax","unknown","dup"}
   MaxLen,       \* history length bound
   RunChoices,   \* subset of BOOLEAN: compile after the step? (FALSE: evictions accumulate)
-  EditKinds     \* enabled edit kinds
+  EditKinds,    \* enabled edit kinds
+  Closing       \* BOOLEAN: complete histories take a final Finish step (used with -simulate)
 
-VARIABLES ws, hist, req, origin
-vars == <<ws, hist, req, origin>>
+VARIABLES ws, hist, req, origin, done
+vars == <<ws, hist, req, origin, done>>
 
 NoRef == [pkg |-> "", name |-> ""]
 Host(f) == "H" \o f
@@ -138,6 +139,10 @@ StepRec(e, nw, ch, run) ==
       valid    |-> Verdict(nw, req),
       bad      |-> {f \in R \cap Present(nw) : LocalBad(nw, f)}]
 
+(* the history variable keeps (edit, changed, run, workspace after the edit); the exported step
+   adds what the language rules say about that workspace (computed once, at export) *)
+StepV(h) == StepRec(h.edit, h.ws, h.changed, h.run)
+
 -----------------------------------------------------------------------------
 (* edits *)
 
@@ -145,8 +150,17 @@ Commit(e, nw, ch) ==
   /\ Len(hist) < MaxLen
   /\ \E run \in RunChoices :
        /\ ws' = nw
-       /\ hist' = Append(hist, StepRec(e, nw, ch, run))
-  /\ UNCHANGED <<req, origin>>
+       /\ hist' = Append(hist, [edit |-> e, changed |-> ch, run |-> run, ws |-> nw])
+  /\ UNCHANGED <<req, origin, done>>
+
+(* closes a history of full length: the one successor of a complete history, so that -simulate
+   (which evaluates invariants on every successor) exports each sampled history exactly once *)
+Finish ==
+  /\ Closing
+  /\ Len(hist) = MaxLen
+  /\ ~done
+  /\ done' = TRUE
+  /\ UNCHANGED <<ws, hist, req, origin>>
 
 Set(f, field, val) == [ws EXCEPT ![f] = [@ EXCEPT ![field] = val]]
 On(k) == k \in EditKinds
@@ -232,6 +246,7 @@ TouchNoChange ==
 Next ==
   \/ ChangeFieldType \/ AddImport \/ DropImport \/ AddDecl \/ RemoveDecl \/ MoveDecl
   \/ BreakFile \/ RepairFile \/ AddFile \/ RemoveFile \/ RenamePackage \/ Comment \/ TouchNoChange
+  \/ Finish
 
 -----------------------------------------------------------------------------
 (* sanity of the machine itself (checked by TLC as invariants) *)
@@ -249,7 +264,8 @@ TypeOK ==
    for TouchNoChange, and the last step describes the current workspace *)
 LastStepOK ==
   Len(hist) > 0 =>
-    LET st == hist[Len(hist)] IN
+    LET st == StepV(hist[Len(hist)]) IN
+      /\ hist[Len(hist)].ws = ws
       /\ st.exists = Present(ws)
       /\ \A f \in st.changed : st.files[f] = FileV(ws[f])
       /\ st.valid = Verdict(ws, req)
